@@ -78,8 +78,8 @@ def check(F, rep):
         dc = def_call(f, k) if k is not None else None
         okb = dc is not None and call_matches(dc[1], r"^core::cmp::(min|Ord::min)$")
         why = "split length is not a min(..)"
-        if okb:
-            a0, a1 = dc[1]["args"]
+        if True:
+            a0, a1 = dc[1]["args"] if okb else (None, None)
 
             def is_len_contents(o):
                 d2 = def_call(f, op_base(o)) if op_base(o) is not None else None
@@ -109,8 +109,38 @@ def check(F, rep):
                 n_ = lambda x: x == {("arg", 2, ())}
 
                 return (n_(x0) and is_seg(m["b"])) or (n_(x1) and is_seg(m["a"]))
-            okb = (is_len_contents(a0) and is_n_times_seg(a1)) or (is_len_contents(a1) and is_n_times_seg(a0))
-            why = "min operands: len(self.contents) %s, num_segments*segment_size %s" % (is_len_contents(a0) or is_len_contents(a1), is_n_times_seg(a0) or is_n_times_seg(a1))
+            if okb:
+                okb = (is_len_contents(a0) and is_n_times_seg(a1)) or (is_len_contents(a1) and is_n_times_seg(a0))
+                why = "min operands: len(self.contents) %s, num_segments*segment_size %s" % (is_len_contents(a0) or is_len_contents(a1), is_n_times_seg(a0) or is_n_times_seg(a1))
+            else:
+                # explicit minimum: `if p < l { p } else { l }` (any orientation)
+                kk = k
+                for _ in range(5):
+                    ds_ = [s_ for b_, i_, s_ in f.stmts() if s_["k"] == "a" and s_["lhs"] == {"l": kk}]
+                    if len(ds_) == 1 and ds_[0]["rv"]["k"] == "use" and ds_[0]["rv"]["o"]["k"] in ("copy", "move") and not ds_[0]["rv"]["o"]["p"].get("p") and not (is_n_times_seg(ds_[0]["rv"]["o"]) or is_len_contents(ds_[0]["rv"]["o"])):
+                        kk = ds_[0]["rv"]["o"]["p"]["l"]
+                    else:
+                        break
+                defs = [(b_, s_) for b_, i_, s_ in f.stmts() if s_["k"] == "a" and s_["lhs"] == {"l": kk} and s_["rv"]["k"] == "use" and s_["rv"]["o"]["k"] in ("copy", "move")]
+                kinds = {}
+                for b_, s_ in defs:
+                    o_ = s_["rv"]["o"]
+                    kinds[b_] = "P" if is_n_times_seg(o_) else ("L" if is_len_contents(o_) else "?")
+                cm = []
+                for cb_, st_, ts_ in cmp_tests(f, ops=("Lt", "Le", "Gt", "Ge")):
+                    x_, y_ = st_["rv"]["a"], st_["rv"]["b"]
+                    op_ = st_["rv"]["op"]
+                    if is_n_times_seg(x_) and is_len_contents(y_):
+                        cm.append((op_ in ("Lt", "Le"), ts_))       # truth => P is the smaller
+                    elif is_len_contents(x_) and is_n_times_seg(y_):
+                        cm.append((op_ in ("Gt", "Ge"), ts_))
+                if sorted(kinds.values()) == ["L", "P"] and len(cm) == 1:
+                    p_small_on_true, ts_ = cm[0]
+                    okb = True
+                    for b_, kd in kinds.items():
+                        want_true = (kd == "P") == p_small_on_true
+                        okb = okb and (requires(f, b_, ts_) if want_true else requires_failure(f, b_, ts_))
+                    why = "explicit minimum of (num_segments * segment_size, self.contents.len()) by comparison: %s" % okb
         rep.ob("bound", okb, site(f, sb), "split_to(min(num_segments * segment_size, self.contents.len())): %s" % why, skey(F, f, "split-len"))
         # the usize segment size is self.segment_size widened
         segl = None
@@ -129,7 +159,7 @@ def check(F, rep):
                 return "taken"
             return None
 
-        def mk_value_of(n_gt1, rel_whole, rel_rest):
+        def mk_value_of(n_gt1, rel_whole, rel_rest, dontcare=False):
             """rel_* in lt/eq/gt: len ? segment_size.  whole = self.contents before the split;
             taken = min(n * seg, whole): for n = 1 it is min(seg, whole), for n > 1 it
             exceeds seg exactly when whole does."""
@@ -158,6 +188,8 @@ def check(F, rep):
                             # value of `len <op> seg` (flip: `seg <op> len`)
                             o2 = {"Lt": "Gt", "Gt": "Lt", "Le": "Ge", "Ge": "Le"}.get(op, op) if flip else op
                             return {"Lt": rel == "lt", "Le": rel in ("lt", "eq"), "Gt": rel == "gt", "Ge": rel in ("gt", "eq"), "Eq": rel == "eq", "Ne": rel != "eq"}[o2]
+                    if (is_n_times_seg(x) and len_of(y) == "before") or (is_n_times_seg(y) and len_of(x) == "before"):
+                        return value_of.dontcare      # only selects how the split length is computed
                     raise Unsupported("comparison %s at bb%d is not between a length and the segment size / n and 1" % (op, a.bb))
                 if a.kind == "switch":
                     l = op_local(a.args[0])
@@ -170,6 +202,7 @@ def check(F, rep):
                     raise Unsupported("branch at bb%d" % a.bb)
                 raise Unsupported("%s %s at bb%d" % (a.kind, a.name, a.bb))
             value_of.rel_taken = rel_taken
+            value_of.dontcare = dontcare
             return value_of
         def is_seg_payload(o):
             x = copy_sources(f, op_base(o)) if op_base(o) is not None else set()
@@ -226,7 +259,8 @@ def check(F, rep):
                 for n_gt1 in (False, True):
                     for rw in ("lt", "eq", "gt"):
                         for rr in ("lt", "eq", "gt"):
-                            vo = mk_value_of(n_gt1, rw, rr)
+                          for dc_ in (False, True):
+                            vo = mk_value_of(n_gt1, rw, rr, dc_)
                             got = booltab.evaluate(paths, vo)
                             if got != (vo.rel_taken == "gt"):
                                 bad.append("n%s, batch %s one segment (taken %s) -> %s" % (">1" if n_gt1 else "=1", {"lt": "<", "eq": "=", "gt": ">"}[rw], {"lt": "<", "eq": "=", "gt": ">"}[vo.rel_taken], "Some" if got else "None"))
@@ -247,7 +281,8 @@ def check(F, rep):
                 for n_gt1 in (False, True):
                     for rel in ("lt", "eq", "gt"):
                         for rr in ("lt", "eq", "gt"):
-                            got = booltab.evaluate(paths, mk_value_of(n_gt1, rel, rr))
+                          for dc_ in (False, True):
+                            got = booltab.evaluate(paths, mk_value_of(n_gt1, rel, rr, dc_))
                             if got != (rr in ("lt", "eq")):
                                 bad.append("rest %s segment -> %s" % ({"lt": "<", "eq": "=", "gt": ">"}[rr], "cleared" if got else "kept"))
                 rep.ob("remainder", not bad, site(f, clears[0]), "after the split, self.segment_size is cleared exactly when at most one segment remains (rest.len() <= segment_size), so a single remaining datagram never keeps a segment size; mismatches: %s" % sorted(set(bad)), skey(F, f, "clear-iff-single"))
